@@ -341,6 +341,19 @@ def run_check(mod, tier: str, replay: Optional[str] = None, n_override: Optional
         print(f"CHECK-BROKEN property={pid}: theorems missing or with unexpected axioms: {bad}")
         return 2
 
+    # thorough tier: independent re-check of the compiled proofs by leanchecker
+    leanchecker = None
+    if tier == "thorough" and not replay:
+        try:
+            p = _run(["lake", "env", "leanchecker"] + list(mod.LEAN_MODULES), LEAN_DIR, 1500)
+            leanchecker = {"ok": p.returncode == 0, "tail": ((p.stdout or "") + (p.stderr or ""))[-500:]}
+            if p.returncode != 0:
+                print(leanchecker["tail"])
+                print(f"CHECK-BROKEN property={pid}: leanchecker rejected the compiled proofs")
+                return 2
+        except FileNotFoundError:
+            leanchecker = {"ok": None, "tail": "leanchecker not available"}
+
     # proof obligations regenerated from /repo's current source by a translator (optional, per property)
     broken_obligations: List[Dict[str, str]] = []
     translated: List[Dict[str, Any]] = []
@@ -496,6 +509,7 @@ def run_check(mod, tier: str, replay: Optional[str] = None, n_override: Optional
             "trusted_base": list(mod.TRUSTED),
             "theorems": {t: audit["theorems"][t]["axioms"] for t in mod.THEOREMS},
             "translated_obligations": translated,
+            "leanchecker": leanchecker,
             "evaluations": len(verdicts),
             "distinct_nontrivial": len(distinct),
             "rule": mod.RULE,
